@@ -34,7 +34,7 @@ m = {
     "hooks": {"guard": "PAHO_MQTT_VERIF", "enable": "not needed: no source hooks; clock, sockets, select and threading are substituted in the harness process by assignment into the paho.mqtt.client module namespace",
               "baseline_off_cmd": "cd /repo && /venv/bin/python -m pytest -ra -q -p no:cacheprovider --timeout=900 --continue-on-collection-errors",
               "source_commits": [], "add_only": True},
-    "engines": [{"name": "lean4-model+proofs", "path": "lean/", "serves_properties": [c["property_id"] for c in checks], "kind_free_text": "Lean 4 model (Paho/), proofs (PahoProofs/), compiled line-protocol driver (pahomodel)"},
+    "engines": [{"name": "lean4-model+proofs", "path": "lean/", "serves_properties": [c["property_id"] for c in checks], "kind_free_text": "Lean 4 model (Paho/), proofs (PahoProofs/), compiled line-protocol drivers (lean_exe pm_<stream>, one per model driver)"},
                 {"name": "python-harness", "path": "py/", "serves_properties": [c["property_id"] for c in checks], "kind_free_text": "T1 extractor, fake world, T2 drivers, property monitors, runner"}],
     "checks": checks,
     "notes": "Machine-checked proof in Lean 4 with a checked tie to /repo (T1 extraction + T2 differential). A broken proof/extraction/correspondence triggers a failing-input search on the real code; see DESIGN.md. Genuine defects repaired by fix: commits in /repo and open findings are listed in known_findings.json.",
